@@ -75,6 +75,15 @@ LOOP_KEEPERS = {
 }
 
 
+def _block_scoped_manager(an: Analysis, fn) -> bool:
+    """``__enter__`` of a private context manager class: what it remembers lives from the
+    entry of one ``with`` block to its exit, inside one activation sequence of one run"""
+    return fn.name in ('__enter__', '__aenter__') and fn.cls is not None and \
+        fn.cls.name.startswith('_') and not fn.cls.name.startswith('__') and (
+            an.p.find_method(fn.cls.qn, '__exit__') is not None
+            or an.p.find_method(fn.cls.qn, '__aexit__') is not None)
+
+
 def check_loop_never_kept(check, an: Analysis, rule: str):
     """
     Which loop is "the current one" is asked of the state handle every time: no object
@@ -111,7 +120,7 @@ def check_loop_never_kept(check, an: Analysis, rule: str):
                 kept = rules.normalise_state_aliases(
                     rules.value_text(path, index, event.data['value']))
                 if kept in ('__USIM_STATE__.loop', '__LOOP_STATE__.loop') and \
-                        fn.qn not in LOOP_KEEPERS:
+                        fn.qn not in LOOP_KEEPERS and not _block_scoped_manager(an, fn):
                     bad = bad or (fn, path, index)
     check.instance(rule, 'the-current-loop-is-never-kept', bad is None and n_stores > 0,
                    where_fn(bad[0]) if bad else 'usim/**',
